@@ -2,13 +2,13 @@
 (* Bounded model of VerCmp: the symbol alphabets of the two universes and the row emitter.                 *)
 EXTENDS VerCmp
 S(c) == <<c>>
-\* raw universe, quick: 1 0 a . - pre rc snap alpha beta  ; thorough: + 2 b
-RawSymsQuick    == << S(49), S(48), S(97), S(46), S(45), W_pre, W_rc, W_snap, W_alpha, W_beta >>
+\* raw universe, quick: 1 0 a . pre rc snap alpha beta  ; thorough: + 2 b -
+RawSymsQuick    == << S(49), S(48), S(97), S(46), W_pre, W_rc, W_snap, W_alpha, W_beta >>
 RawSymsThorough == << S(49), S(50), S(48), S(97), S(98), S(46), S(45), W_pre, W_rc, W_snap, W_alpha, W_beta >>
 \* well-formed versions: numbers 0 1 2 10 and 4294967297 (beyond 32 bits); words: the five pre-release words,
 \* two plain words, and one longer word that begins with a pre-release word (E)
 BIG == <<52, 50, 57, 52, 57, 54, 55, 50, 57, 55>>
-NumValsQuick    == << S(48), S(49), S(50), <<49, 48>>, BIG >>
+NumValsQuick    == << S(48), S(49), <<49, 48>>, BIG >>
 NumValsThorough == << S(48), S(49), <<49, 48>>, BIG >>
 Words8 == << W_snap, W_pre, W_alpha, W_beta, W_rc, S(97), S(112), W_pre \o S(97) >>
 SufNums == << <<>>, S(49), S(50) >>
